@@ -835,12 +835,17 @@ def r5_connection(program, rep):
     split_gc = any(getattr(h_, "_virtual", False) for h_ in ast.walk(gc)
                    if h_ is not gc) or any(
         isinstance(n_, (ast.For, ast.While)) for n_ in ast.walk(gc))
+    if not cs:
+        # the geometry function is not called: the board's chip is worked
+        # out in place
+        split_gc = True
     if split_gc and not (len(cs) == 1 and T.term(cs[0]) == ETH):
         # the look-up was moved into helpers / a loop over candidate keys:
         # this part of the rule reads the plain two-step form only
         rep.undecided("C18-R5", "MachineController._get_connection chooses "
-                      "the connection through helpers or a loop over "
-                      "candidate keys; that form is not analysed")
+                      "the connection through helpers, a loop over "
+                      "candidate keys or without the geometry function; "
+                      "that form is not analysed")
     ok = len(cs) == 1 and T.term(cs[0]) == ETH
     if not (split_gc and not ok):
         rep.check(ok, "C18-R5", inst, "the board's Ethernet chip is "
@@ -854,8 +859,9 @@ def r5_connection(program, rep):
     def live_returns(H_):
         return [H_.term(r.value, H_.cfg.node_of(r)) for r in returns_of(gc)
                 if r.value is not None and H_.live(H_.cfg.node_of(r))]
-    okr = live_returns(T.under(*(known + [(is_none(LOCAL), False)]))) == [
-        LOCAL]
+    # (connections[k] is connections.get(k) when the latter is not None)
+    okr = live_returns(T.under(*(known + [(is_none(LOCAL), False)]))) in (
+        [LOCAL], [("item", CONNS, ETH)])
     okr = okr and live_returns(T.under(*(known + [(is_none(LOCAL), True)]))) \
         == [DEFAULT]
     for k in range(3):
